@@ -1,0 +1,96 @@
+//go:build verif
+
+package format
+
+// Verification hook for property C38 (`plz fmt` never changes what a BUILD file means). Add-only;
+// compiled only with -tags verif. Nothing here changes behaviour: it calls the unexported format /
+// simplify / subinclude functions of fmt.go and serialises the statement lists they work on.
+
+import (
+	"strings"
+
+	"github.com/please-build/buildtools/build"
+)
+
+// VerifC38Format is format(): it reads the file, and with rewrite == true writes the canonical form back.
+func VerifC38Format(filename string, rewrite, quiet bool) (bool, error) {
+	return format(filename, rewrite, quiet)
+}
+
+// VerifC38Arg is one argument of a top-level call to the identifier `subinclude`.
+// Kind: "lit" a *build.StringExpr that is not an f-string, "fstr" a *build.StringExpr whose token starts
+// with f (the buildtools fork parses f-strings as string expressions), "other" anything else.
+type VerifC38Arg struct {
+	Kind string `json:"kind"`
+	// Val is the decoded string value for lit / fstr, empty for other.
+	Val string `json:"val,omitempty"`
+	// ID identifies the argument expression (assigned before simplify ran, recovered by pointer afterwards).
+	ID int `json:"id"`
+}
+
+// VerifC38Stmt is one top-level statement as simplify sees it.
+type VerifC38Stmt struct {
+	// Sub is true for a call expression whose callee is the identifier `subinclude` (whatever its arguments).
+	Sub  bool          `json:"sub"`
+	Args []VerifC38Arg `json:"args,omitempty"`
+	// Valid is what the unexported subinclude() of fmt.go says about the statement (non-nil result).
+	Valid bool `json:"valid"`
+	// ID is the index of the statement in the parsed file (for a merged call: of the call that survives).
+	ID int `json:"id"`
+	// Comment is true for a standalone comment block.
+	Comment bool `json:"comment,omitempty"`
+	// ForceCompact / ForceMultiLine as left on the call expression.
+	ForceCompact   bool `json:"force_compact,omitempty"`
+	ForceMultiLine bool `json:"force_multiline,omitempty"`
+}
+
+// VerifC38Simplify parses src the way format() does, runs the real simplify on it and returns the
+// top-level statement list before and after, together with the text build.Format prints for the result.
+func VerifC38Simplify(filename string, src []byte) (before, after []VerifC38Stmt, formatted []byte, err error) {
+	f, err := build.ParseBuild(filename, src)
+	if err != nil {
+		return nil, nil, nil, err
+	}
+	stmtID := map[build.Expr]int{}
+	argID := map[build.Expr]int{}
+	for i, st := range f.Stmt {
+		stmtID[st] = i
+		if call, ok := st.(*build.CallExpr); ok {
+			for j, a := range call.List {
+				argID[a] = i*1000 + j
+			}
+		}
+	}
+	abstract := func() []VerifC38Stmt {
+		out := make([]VerifC38Stmt, 0, len(f.Stmt))
+		for _, st := range f.Stmt {
+			v := VerifC38Stmt{ID: stmtID[st]}
+			if _, ok := st.(*build.CommentBlock); ok {
+				v.Comment = true
+			}
+			if call, ok := st.(*build.CallExpr); ok {
+				if x, ok := call.X.(*build.Ident); ok && x.Name == "subinclude" {
+					v.Sub = true
+					v.ForceCompact, v.ForceMultiLine = call.ForceCompact, call.ForceMultiLine
+					for _, a := range call.List {
+						arg := VerifC38Arg{Kind: "other", ID: argID[a]}
+						if s, ok := a.(*build.StringExpr); ok {
+							arg.Kind, arg.Val = "lit", s.Value
+							if strings.HasPrefix(s.Token, "f") {
+								arg.Kind = "fstr"
+							}
+						}
+						v.Args = append(v.Args, arg)
+					}
+				}
+			}
+			v.Valid = subinclude(st) != nil
+			out = append(out, v)
+		}
+		return out
+	}
+	before = abstract()
+	simplify(f)
+	after = abstract()
+	return before, after, build.Format(f), nil
+}
